@@ -4,6 +4,7 @@
 package query
 
 import (
+	"slices"
 	"strings"
 
 	"github.com/apmckinlay/gsuneido/compile/ast"
@@ -120,10 +121,30 @@ func (a *updateAction) execute(th *Thread, ut *db19.UpdateTran) int {
 			r.Put(th, SuStr(col), a.exprs[i].Eval(&ctx))
 		}
 		newrec := r.ToRecord(th, hdr)
+		if slices.Contains(hdr.Fields[0], "-") {
+			newrec = keepHidden(newrec, hdr.Fields[0],
+				ut.GetSchema(table).Columns, ut.GetRecord(row[0].Off))
+		}
 		prev = ut.Update(th, table, row[0].Off, newrec)
 		n++
 	}
 	return n
+}
+
+// keepHidden returns newrec with the fields that are hidden in the query
+// (e.g. by project) copied from oldrec, so update does not lose them.
+// Hidden fields are "-" in flds (from the query header)
+// but not in cols (from the table schema, where "-" is a deleted column).
+func keepHidden(newrec Record, flds, cols []string, oldrec Record) Record {
+	rb := RecordBuilder{}
+	for i, f := range flds {
+		if f == "-" && cols[i] != "-" {
+			rb.AddRaw(oldrec.GetRaw(i))
+		} else {
+			rb.AddRaw(newrec.GetRaw(i))
+		}
+	}
+	return rb.Trim().Build()
 }
 
 //-------------------------------------------------------------------
